@@ -136,6 +136,21 @@ def run(ctx):
         c = gen_cat.random_cat(rng, atoms, 3)
         pairs.append((c, gen_cat.perturb(rng, rebuild(c), en_feats + ja_feats)))
         pairs.append((c, gen_cat.random_cat(rng, atoms, 3)))
+    # three-part features in other than the treebank's key order / with repeated keys
+    odd = gen_cat.ja_feats_odd()
+    odd_atoms = [Atom(b, f) for f in odd for b in ('S', 'NP')]
+    for _ in range(ctx.budget(4000, 40000)):
+        a, b = rng.choice(odd_atoms), rng.choice(odd_atoms)
+        if rng.random() < 0.5:
+            kv = [a.feature.kv1, a.feature.kv2, a.feature.kv3]
+            rng.shuffle(kv)
+            b = Atom(a.base, TernaryFeature(*kv))
+        if rng.random() < 0.5:
+            o = rng.choice(ja_atoms)
+            sl = rng.choice(['/', '\\'])
+            a, b = (Functor(a, sl, o), Functor(b, sl, o)) if rng.random() < 0.5 else (Functor(o, sl, a), Functor(o, sl, b))
+        pairs.append((a, b))
+        pairs.append((a, rebuild(a)))
     # mixed kinds
     for a in en_atoms[:6] + ja_atoms[:4]:
         for b in uni_en[-5:] + uni_ja[-5:]:
